@@ -12,18 +12,21 @@ if os.path.exists(res):
     for l in open(res): done.add(json.loads(l)['id'])
 todo=[json.loads(l) for l in open(os.path.join(mdir,'index.jsonl'))]
 todo=[m for m in todo if m['id'] not in done and (kinds is None or m['kind'] in kinds)]
+# a pristine copy of HEAD (the working tree of /repo may be carrying a seeded patch while this runs)
+if not os.path.exists('/var/tmp/mut-base'):
+    os.makedirs('/var/tmp/mut-base'); subprocess.run("git -C /repo archive HEAD | tar -x -C /var/tmp/mut-base",shell=True,check=True)
 q=queue.Queue()
 for m in todo: q.put(m)
 lock=threading.Lock()
 env=dict(os.environ,GOFLAGS='-mod=mod',GOPROXY='off',GOSUMDB='off',GOTOOLCHAIN='local'); env.pop('GOWORK',None)
 def work(k):
     S=f'/var/tmp/mut-scratch-{k}'; V=f'/var/tmp/mut-verif-{k}'
-    subprocess.run(['rsync','-a','--delete','--exclude','.git','/repo/',S+'/'],check=True)
-    os.makedirs(V,exist_ok=True)
+    subprocess.run(['rsync','-a','--delete','/var/tmp/mut-base/',S+'/'],check=True)
+    os.makedirs(V,exist_ok=True); shutil.copy('/verif/known_findings.txt',V)
     while True:
         try: m=q.get_nowait()
         except queue.Empty: break
-        tgt=os.path.join(S,m['file']); orig=open(os.path.join('/repo',m['file']),'rb').read()
+        tgt=os.path.join(S,m['file']); orig=open(os.path.join('/var/tmp/mut-base',m['file']),'rb').read()
         shutil.copy(os.path.join(mdir,f"{m['id']}.go"),tgt)
         p=subprocess.run(['/verif/bin/vcheck','-repo',S,'-verif',V,'-p','all'],capture_output=True,text=True,env=env)
         open(tgt,'wb').write(orig)
@@ -35,7 +38,7 @@ def work(k):
         elif rules: st='killed'
         elif unres or 'BROKEN' in out: st='unresolved'
         else: st='survived'
-        r=dict(m,status=st,props=rules,rules=hit[:6],unresolved=[u[1] for u in unres][:4])
+        r=dict(m,status=st,props=rules,rules=hit[:12],unresolved=[u[1] for u in unres][:4])
         with lock:
             with open(res,'a') as f: f.write(json.dumps(r)+'\n')
     shutil.rmtree(S,ignore_errors=True); shutil.rmtree(V,ignore_errors=True)
